@@ -262,7 +262,7 @@ func ClassifyDump(dump string) (string, []string) {
 		switch {
 		case strings.Contains(head, "[sync.") || strings.Contains(head, "[semacquire") || strings.Contains(head, "[chan send") || strings.Contains(head, "[chan receive") || strings.Contains(head, "[select"):
 			// background loops of the product legitimately sit in select / chan receive
-			if strings.Contains(frame, "backgroundTasks") || strings.Contains(frame, ".run") || strings.Contains(frame, "Compactor") || strings.Contains(frame, "EventBus") || strings.Contains(frame, "Loop") {
+			if strings.Contains(frame, "backgroundTasks") || strings.Contains(frame, ".run") || strings.Contains(frame, "Compactor") || strings.Contains(frame, "Loop") {
 				continue
 			}
 			blocked = append(blocked, frame+" "+head[strings.Index(head, "["):])
